@@ -133,13 +133,37 @@ Proof. intros. apply mloop_terminates; auto. Qed.
    Stage 2: step 11.5 in full *)
 
 (* ---- termination.  The batching loop (ItemBatcher) consumes at least one item per iteration: with `length items + 1`
-   units of fuel it ends by itself -- more fuel changes nothing.  Any number structure, any oracle.  (The inner loops
-   are those of distribute_space_up_to_limits: C09_distribute_terminates for the call shape of 11.6; for the calls of
-   11.5 -- arbitrary affected-filters, flex-factor proportions, infinite limits -- the fuel 2*len+8 is tied by K only.) *)
+   units of fuel it ends by itself -- more fuel changes nothing.  Any number structure, any oracle.  The inner loops
+   are those of distribute_space_up_to_limits: C09_intrinsic_distribute_terminates below. *)
 Theorem C09_intrinsic_terminates : forall (T : Type) `{Num T} contrib inner avail (items : list (item T)) tracks k,
   resolve_intrinsic_fuelled contrib inner avail (intrinsic_fuel items + k) items tracks
   = resolve_intrinsic_track_sizes contrib inner avail items tracks.
 Proof. intros. apply intrinsic_terminates. Qed.
+
+(* ... and the inner loops: distribute_space_up_to_limits as 11.5 calls it -- any affected-filter, proportion 1 or the
+   flex factor, affected property base_size or growth-limit-or-base, limit growth_limit / fit-content-limited growth limit /
+   fit-content limit / +infinity (the `frame` premises: none of them reads item_incurred_increase; C09_distribute_frame) --
+   ends by itself within the fuel 2*len+8 of the model in exact arithmetic, provided (`wt`) the affected property is
+   finite, the incurred increase finite and >= 0, the proportion finite and >= 0, the limit finite or +infinity: every
+   iteration either exhausts the space or makes the growable track with the least head-room non-growable. *)
+Theorem C09_intrinsic_distribute_terminates : forall aff p prop limit,
+  (forall t x, aff (set_incurred t x) = aff t) -> (forall t x, p (set_incurred t x) = p t) ->
+  (forall t x, prop (set_incurred t x) = prop t) -> (forall t x, limit (set_incurred t x) = limit t) ->
+  forall sp (tracks : list (track XQ)) k, Forall (wt p prop limit) tracks ->
+  distribute_loop aff p prop limit (distribute_fuel tracks + k) (Fin sp) tracks
+  = distribute_loop aff p prop limit (distribute_fuel tracks) (Fin sp) tracks.
+Proof. intros aff p prop limit H1 H2 H3 H4 sp tracks k Hw. apply distribute_fuel_enough; assumption. Qed.
+
+Theorem C09_distribute_frame : forall inner : option XQ,
+  (forall (t : track XQ) x, base_size (set_incurred t x) = base_size t) /\
+  (forall (t : track XQ) x, limit_or_base (set_incurred t x) = limit_or_base t) /\
+  (forall (t : track XQ) x, growth_limit (set_incurred t x) = growth_limit t) /\
+  (forall (t : track XQ) x, fit_content_limited_growth_limit inner (set_incurred t x) = fit_content_limited_growth_limit inner t) /\
+  (forall (t : track XQ) x, fit_content_limit inner (set_incurred t x) = fit_content_limit inner t) /\
+  (forall (t : track XQ) x, flex_factor (set_incurred t x) = flex_factor t) /\
+  (forall (t : track XQ) x, is_flexible (set_incurred t x) = is_flexible t) /\
+  (forall (t : track XQ) x, minf (set_incurred t x) = minf t /\ maxf (set_incurred t x) = maxf t).
+Proof. exact frame_params. Qed.
 
 (* ---- 11.5 changes neither the length of the track vector nor any track's kind / sizing functions *)
 Theorem C09_intrinsic_structure : forall (T : Type) `{Num T} contrib inner avail (items : list (item T)) tracks,
@@ -302,6 +326,8 @@ Print Assumptions C09_fixed_exact_refuted.
 Print Assumptions C09_fixed_threshold_per_call_refuted.
 Print Assumptions C09_distribute_terminates.
 Print Assumptions C09_intrinsic_terminates.
+Print Assumptions C09_intrinsic_distribute_terminates.
+Print Assumptions C09_distribute_frame.
 Print Assumptions C09_intrinsic_structure.
 Print Assumptions C09_intrinsic_monotone.
 Print Assumptions C09_intrinsic_preserves_fixed_partial.
